@@ -184,6 +184,8 @@ type RigS struct {
 	faultsAtStart      int
 	storeFaultsAtStart int
 	deletedAt          map[string]int
+	bgTouched          map[int]bool   // downstreams on which the service touched a task record on its own in this incarnation
+	stateFaulted       int            // scripted state-write faults used so far (this incarnation)
 	partDropMemo       map[int64]bool // partitions dropped at the source somewhere in the history
 	prevRaw            string         // the persisted content at the previous scheduler step
 	bgWriteStep        map[string]int // task -> step of the last write of its record made while no request on it was in flight
@@ -214,6 +216,29 @@ func (r *RigS) gate(kind string) Gate {
 			}
 			r.s.Side("store(np) %s", key)
 			return Outcome{}
+		}
+		if kind == "store" && r.sc.StateFaults > 0 && !r.s.Draining && r.isReloaded() && (strings.Contains(key, ":put:") || strings.Contains(key, "exec:INSERT INTO task_info:")) {
+			if i := strings.LastIndex(key, "task_info"); i >= 0 && i+len("task_info")+1 <= len(key) {
+				id := key[i+len("task_info")+1:]
+				if j := strings.IndexAny(id, ",# /"); j >= 0 {
+					id = id[:j]
+				}
+				r.mu.Lock()
+				own := r.opBusy && r.st.InFlight >= 0 && r.sc.Ops[r.st.InFlight].Task == id
+				hit := id != "" && !own && r.stateFaulted < r.sc.StateFaults
+				if hit {
+					r.stateFaulted++
+				}
+				r.mu.Unlock()
+				if hit {
+					// scripted: the state write of a pause the service makes on its own is refused (not parked: the same outcome
+					// whenever it comes)
+					r.s.Stat("fault:store_err_before")
+					r.s.Stat("fault:state_write_refused")
+					r.s.Side("store %s -> injected error (scripted state-write fault)", key)
+					return Outcome{Fault: "store_err_before"}
+				}
+			}
 		}
 		o := r.s.Park(ctx, kind, key, nil)
 		return o
@@ -623,6 +648,7 @@ func (r *RigS) build() {
 			}
 		}
 	}
+	reader.VerifEventQueueCap = func() int { return sc.Knobs.EventCap }
 	server.VerifOrderedPositions = true
 	doneCalls := map[string]int{}
 	reader.VerifHandlerOrder = SeededHandlerOrder(r.plan.Seed, r.plan.Incarnation)
@@ -931,6 +957,16 @@ func (r *RigS) noteOverlap(key string) {
 		r.st.Overlap[id] = true
 		r.st.Overlap[r.sc.Ops[r.st.InFlight].Task] = true
 		r.s.Probe("background_transition_overlaps_request")
+	}
+	if id != "" && r.isReloaded() && !(r.opBusy && r.st.InFlight >= 0 && r.sc.Ops[r.st.InFlight].Task == id) {
+		// the service touches the record of a task on its own (a pause after a failure, persisted or not): the loops of that
+		// task's downstream that met the failure return (KF bystander-of-failed-task)
+		if t := r.st.Tasks[id]; t != nil && t.Spec != nil && t.Spec.tgt() >= 0 {
+			if r.bgTouched == nil {
+				r.bgTouched = map[int]bool{}
+			}
+			r.bgTouched[t.Spec.tgt()] = true
+		}
 	}
 	startedByReload := false
 	for _, st := range r.mq.All {
